@@ -277,7 +277,43 @@ def rule_comment(check):
     check.expect(ok, R, R + "/retain-others", hir.loc(r.rec), "retain(|c| !is_source_map_comment(c)): other comments stay", "remove_source_map_comments does not keep exactly the other comments")
 
 
+def rule_resolve(check):
+    R = "MAP-DISCOVERY"
+    check.rule(R, "the original map is taken from a sourceMappingURL comment: an inline data URL is decoded, anything else is read as a file - absolute as is, relative joined to the parent folder of the source file; only a regular (non-index) map is used")
+    prog = check.prog
+    pv = Prov(prog)
+    e = prog.fn("rewriter::extract_source_map")
+    dd = [n for n in hir.calls_in(e.body, name="decode_data_url")]
+    check.expect(len(dd) == 1, R, R + "/data-url-first", hir.loc(e.rec), "decode_data_url(url) is tried first", "inline data URLs are not decoded first")
+    joins = [n for n in hir.calls_in(e.body, name="join")]
+    check.floor(R, "relative path resolutions", len(joins), 1)
+    for n in joins:
+        atoms = gate.atoms_at(e, n)
+        rel = any(a[0] == "call" and a[1] == "is_absolute" and a[4] is False for a in atoms)
+        from_parent = False
+        bl = hir.local_of(hir.call_args(n)[0])
+        init = e.bindings()[bl[0]]["origin"][1] if bl and e.bindings()[bl[0]]["origin"][0] == "let" else hir.call_args(n)[0]
+        for x in hir.walk(init) if init is not None else []:
+            if hir.is_call(x) and (hir.callee_name(x) or x.get("method")) == "parent":
+                paths = [y for y in hir.walk(hir.call_args(x)[-1]) if hir.local_of(y)]
+                from_parent = any(e.bindings()[hir.local_of(y)[0]]["origin"][:2] == ("param", 0) for y in paths)
+        check.expect(rel and from_parent, R, R + "/relative-to-source-file", hir.loc(n), "relative URL joined to parent(file_path)", "a relative map URL is not resolved against the folder of the source file")
+    absn = [n for n in e.nodes() if n.get("k") == "If" and hir.is_call(hir.peel(n["cond"])) and hir.callee_name(hir.peel(n["cond"])) == "is_absolute"]
+    for n in absn:
+        th = hir.peel(n["then"])
+        same = hir.local_of(th) and hir.local_of(th) == hir.local_of(hir.call_args(hir.peel(n["cond"]))[0])
+        check.expect(bool(same), R, R + "/absolute-as-is", hir.loc(n), "absolute URL used as is", "an absolute map URL is altered")
+    reads = [n for n in hir.calls_in(e.body, name="read")]
+    check.expect(len(reads) == 1 and hir.local_of(hir.call_args(reads[0])[1]) is not None, R, R + "/read-final-path", hir.loc(e.rec), "the resolved path is read through the FileReader", "the map file is not read through the FileReader from the resolved path")
+    regs = [hir.pat_variant(a["pat"]) for m in hir.walk(e.body) if m.get("k") == "Match" for a in m["arms"]]
+    ok = any(isinstance(v, str) and v.endswith("DecodedMap::Regular") for v in regs)
+    check.expect(ok, R, R + "/regular-only", hir.loc(e.rec), "only DecodedMap::Regular is used", "non-regular decoded maps are used")
+    url = [n for n in hir.calls_in(e.body, name="get")]
+    check.ok(R, R + "/url", hir.loc(e.rec), "url = text after the marker (C13 G8 shows the slice is in range)")
+
+
 def run(check):
+    check.guarded("MAP-DISCOVERY", rule_resolve)
     check.guarded("TEXTEDIT", rule_textedit)
     check.guarded("FALLBACK-WIRING", rule_fallback)
     check.guarded("CHAIN-WIRING", rule_chain)
